@@ -138,7 +138,7 @@ def ulp(x):
 
 
 class Arr:
-    __slots__ = ("name", "typ", "val", "err", "st", "exists", "taint", "gexact")
+    __slots__ = ("name", "typ", "val", "err", "st", "exists", "taint", "gexact", "opaque")
 
     def __init__(self, name, n):
         a = ARR[name]
@@ -158,6 +158,7 @@ class Arr:
         #                          for ADD/MULTIPLY/MINVALUE/MAXVALUE on non-multiplier arrays)
         self.taint = set()       # keys of known library defects that may have influenced this array
         self.gexact = True       # False: inactive cells of a global-storage array are not asserted
+        self.opaque = False      # True: content not modelled (top-layer distribution); only oracle (ii) applies
 
 
 class Model:
@@ -272,9 +273,15 @@ class Model:
             raise Invalid("data size")
         info = ARR[name]
         partial = len(cs) != self.n or any(v is None for v in vals)
+        if a.opaque:
+            raise Invalid("array content not modelled")
         if info["top"] and partial and any(s == 0 for s in a.st):
-            # top-layer distribution of incompletely specified GRID arrays is not modelled
-            raise Invalid("partial data for a top-distributed array that is not yet complete")
+            # PORO/PERM*: an incompletely specified GRID array takes the top-layer values of the
+            # keyword for the cells below.  The interpreter does not model this; the array becomes
+            # opaque (no further operations, compared by the metamorphic oracle only).
+            if any(v is None for v in vals):
+                raise Invalid("defaulted entries together with top-layer distribution")
+            a.opaque = True
         if name == "PORO" and any(v is None and a.st[c] == 0 for v, c in zip(vals, cs)):
             raise Invalid("PORO default on undefined cell")
         for v in vals:
@@ -292,6 +299,8 @@ class Model:
 
     def _scalar_cells(self, a, name, kind, cs, v):
         info = ARR[name]
+        if a.opaque:
+            raise Invalid("array content not modelled")
         if kind == "EQUALS":
             if a.typ == "i" and not (1 <= v <= INT_MAX):
                 raise Invalid("int range")
@@ -383,6 +392,8 @@ class Model:
         if src not in self.A or not self.A[src].exists:
             raise Invalid("source must exist")
         s = self.A[src]
+        if s.opaque or (dst in self.A and self.A[dst].opaque):
+            raise Invalid("array content not modelled")
         if any(x == 0 for x in s.st):
             raise Invalid("source not fully defined")
         if any(s.st[c] != 2 for c in cs):
@@ -501,6 +512,8 @@ class Model:
         if any(s.st[c] == 0 or s.val[c] is None for c in cs):
             raise Invalid("source undefined/unknown")
         d = self.arr(dst)
+        if s.opaque or d.opaque:
+            raise Invalid("array content not modelled")
         if fn in ("MULTIPLY", "POLY") and any(d.st[c] == 0 for c in cs):
             raise Invalid("target undefined")
         if d_info["glob"] and not s_info["glob"]:
@@ -544,6 +557,8 @@ class Model:
         cs, r = self.region_cells(regname, rid)
         self._region_common(name, regname, r)
         a = self.arr(name)
+        if a.opaque:
+            raise Invalid("array content not modelled")
         k = {"EQUALREG": "EQUALS", "ADDREG": "ADD", "MULTIREG": "MULTIPLY"}[kind]
         if k != "EQUALS" and any(a.st[c] == 0 for c in cs):
             raise Invalid("operation on undefined cells")
@@ -1192,11 +1207,12 @@ class C12(Check):
 
         keyed = []          # violations on arrays that a known defect may have influenced: reported last
 
-        def report(name, rule, detail):
+        def report(name, rule, detail, key=None):
             a = m.A.get(name)
             taint = sorted(a.taint) if a is not None else []
-            v = V(rule, dict(detail, array=name), taint[0] if taint else None)
-            if taint:
+            key = taint[0] if taint else key
+            v = V(rule, dict(detail, array=name), key)
+            if key:
                 keyed.append(v)
                 return None
             return v
@@ -1213,13 +1229,16 @@ class C12(Check):
             else:
                 st_, val, err = a.st, a.val, a.err
             readable = all(st_[g] for g in amap)
-            if readable != (lib["data"] is not None):
+            opaque = a is not None and a.opaque
+            if opaque:
+                pass
+            elif readable != (lib["data"] is not None):
                 v = report(name, "reference interpreter: array %s be readable (every active cell has a value)"
                            % ("should" if readable else "should not"), {"library": lib["exc"] or "readable"})
                 if v:
                     return v
                 continue
-            if lib["data"] is not None:
+            if lib["data"] is not None and not opaque:
                 if len(lib["data"]) != len(amap):
                     return V("array size differs from the number of active cells", {"array": name, "size": len(lib["data"])})
                 for ai, g in enumerate(amap):
@@ -1248,8 +1267,12 @@ class C12(Check):
                         return V("get_global size", {"array": name, "size": len(gl)})
                     for ai, g in enumerate(amap):
                         if not same(gl[g], lib["data"][ai]):
+                            # after a region operation the global copy keeps stale statuses (known defect,
+                            # update_global_from_local), a later keyword with defaulted entries then
+                            # overwrites the global value
                             v = report(name, "get_global differs from get in an active cell",
-                                       {"global_index": g, "get_global": gl[g], "get": lib["data"][ai]})
+                                       {"global_index": g, "get_global": gl[g], "get": lib["data"][ai]},
+                                       "regop-global-status-stale" if (info["glob"] and a is not None and not a.gexact) else None)
                             if v:
                                 return v
                             break
@@ -1268,16 +1291,22 @@ class C12(Check):
                     if v:
                         return v
             # ---- (ii) metamorphic: all-active run, same cells, bit for bit
+            mkey = "top-distribute-inactive-source" if opaque else None
             if lib["data"] is not None and lib2["data"] is not None:
                 for ai, g in enumerate(amap):
                     if not same(lib["data"][ai], lib2["data"][g]):
                         return V("metamorphic: value in an active cell depends on which other cells are inactive",
-                                 {"array": name, "global_index": g, "masked_run": lib["data"][ai], "all_active_run": lib2["data"][g]})
+                                 {"array": name, "global_index": g, "masked_run": lib["data"][ai], "all_active_run": lib2["data"][g]},
+                                 mkey)
             elif lib["data"] is None and lib2["data"] is not None:
-                return V("metamorphic: array readable on the all-active grid but not on the masked grid",
-                         {"array": name, "masked_run": lib["exc"]})
+                v = V("metamorphic: array readable on the all-active grid but not on the masked grid",
+                      {"array": name, "masked_run": lib["exc"]}, mkey)
+                if mkey:
+                    keyed.append(v)
+                else:
+                    return v
             elif lib["data"] is not None and lib2["data"] is None:
-                if all(st_):
+                if all(st_) and not opaque:
                     return V("metamorphic: array readable on the masked grid but not on the all-active grid although "
                              "every cell has a value", {"array": name, "all_active_run": lib2["exc"]})
         if keyed:
